@@ -287,7 +287,8 @@ func diff(a, b string, options []jd.Option) (string, bool, error) {
 		if err != nil {
 			return "", false, err
 		}
-		if str != "{}" {
+		// The merge patch of a non-object and {} is also "{}".
+		if len(diff) > 0 {
 			haveDiff = true
 		}
 	default:
